@@ -51,9 +51,28 @@ for n in ('FormatVersion_ctor_vec', 'FileHDF5_checkHeader', 'FileHDF5_ctor_gate'
           'FormatVersion_canRead', 'FormatVersion_canWrite', 'FormatVersion_index', 'FormatVersion_gt', 'FormatVersion_le', 'FormatVersion_ne', 'FormatVersion_z'):
     UNITS[n] = c10.UNITS[n]
 JOBS += [dict(j, defines=DEFS + list(j.get('defines', []))) for j in c10.JOBS if j['name'] in ('FormatVersion_ctor_vec', 'FileHDF5_checkHeader', 'FileHDF5_ctor_gate')]
-SPEC = dict(contracts=['c10_version.h', 'c10_header.h', 'c09_open.h'], stubs=['h5header.h'], include_order=['c10_version.h', 'h5header.h', 'c10_header.h', 'c09_open.h'], units=UNITS, jobs=JOBS,
+def cstr_is_string(ctx, toks):
+    """name.c_str() handed to libhdf5: the abstract string itself"""
+    from cxx2c import seq_at
+    out = []; i = 0
+    while i < len(toks):
+        if toks[i].k == 'id' and seq_at(toks, i + 1, ['.', 'c_str', '(', ')']):
+            out.append(toks[i]); i += 5; continue
+        if toks[i].t == 'check' and toks[i + 1].t == '(' and toks[i + 2].k == 'str' and toks[i + 3].t == '+':
+            # res.check("message" + name): the text of an error message is not part of any contract - the literal is kept, the concatenation dropped
+            from cxx2c import match_close
+            e = match_close(toks, i + 1)
+            out.extend(toks[i:i + 3]); out.append(toks[e]); i = e + 1; continue
+        out.append(toks[i]); i += 1
+    return out
+HG = 'backend/hdf5/h5x/H5Group.cpp'; HGH = 'backend/hdf5/h5x/H5Group.hpp'
+for fn, meth in (('H5Group_removeGroup', 'removeGroup'), ('H5Group_renameGroup', 'renameGroup')):
+    UNITS[fn] = dict(file=HG, locator=r'void\s+H5Group::%s\s*\(' % meth, cls='H5Group', cls_file=HGH, classes=['H5Group', 'nstring', 'HErr'], inherited_members=['hid'], pre_rules=[cstr_is_string])
+    JOBS.append(dict(name=fn, bodies=[fn], enforce=[fn], replace=[], includes=['c09_mutators.h'], extra_c='int gh_child_exists, gh_refuse, gh_unlinks, gh_moves, gh_arg_old, gh_arg_new; long gh_arg_hid;\n',
+                     expect_kinds=['postcondition'], timeout=300))
+SPEC = dict(contracts=['c10_version.h', 'c10_header.h', 'c09_open.h', 'c09_mutators.h'], stubs=['h5header.h'], include_order=['c10_version.h', 'h5header.h', 'c10_header.h', 'c09_open.h'], units=UNITS, jobs=JOBS,
             trusted_base=['CBMC 6.11.0 (C front end, --dfcc, SAT back end)', 'vlib/cxx2c.py idiom map incl. region units (statement ranges of the constructor)',
                           'definitional stubs: fileExists / boost::filesystem::exists return one ghost constant; H5Fcreate/H5Fopen record their flags; H5F_ACC_* values read from the installed H5Fpublic.h'],
             assumptions=['libhdf5 honours the access flags (RDONLY never writes, TRUNC empties): not verified',
                          'the header gate (format/version/id) is C10\'s checkHeader contract',
-                         'mutating calls on a ReadOnly file fail inside libhdf5: not verified'])
+                         'that libhdf5 refuses a mutating call on a ReadOnly file (negative return) is assumed; that the refusal becomes an exception is decided for H5Group::removeGroup / renameGroup only'])
